@@ -2,6 +2,17 @@
 From Coq Require Import Arith Lia ZifyBool ZifyN ZifyNat.
 From Minimq Require Import Bytes.
 
+Global Arguments N.add : simpl never.
+Global Arguments N.sub : simpl never.
+Global Arguments N.mul : simpl never.
+Global Arguments N.div : simpl never.
+Global Arguments N.modulo : simpl never.
+Global Arguments N.eqb : simpl never.
+Global Arguments N.ltb : simpl never.
+Global Arguments N.leb : simpl never.
+Global Arguments N.min : simpl never.
+Global Arguments N.max : simpl never.
+
 Lemma lenN_acc_spec : forall (l : bytes) a, lenN_acc l a = a + N.of_nat (length l).
 Proof. induction l as [|x l IH]; intros a; cbn [lenN_acc length]; [lia|]. rewrite IH. lia. Qed.
 
